@@ -131,6 +131,15 @@ func keep(it *item, variant string) bool {
 	return true
 }
 
+// byRole orders items probe, grey, other, sentinel (stable), so that an index row / 15 s bucket shared
+// by several items is attributed to the probe among them.
+func byRole(items []*item) []*item {
+	rank := map[string]int{roleProbe: 0, roleGrey: 1, roleOther: 2, roleSentinel: 3}
+	out := append([]*item(nil), items...)
+	sort.SliceStable(out, func(i, j int) bool { return rank[out[i].Role] < rank[out[j].Role] })
+	return out
+}
+
 // ---- logs / metrics -----------------------------------------------------------------------------
 
 // seriesLabels: every series of a case carries c13=<tag>; an item of its own has mk=<marker> and the
@@ -187,6 +196,7 @@ func buildLP(cluster bool, items []*item, variant string, tag string, ownType ui
 	}
 	agg := map[k15]*a15{}
 	var order []k15
+	items = byRole(items)
 	for _, it := range items {
 		if !keep(it, variant) {
 			continue
@@ -282,6 +292,7 @@ func valID(s string) uint64 { return fnv64(s) % 10000 }
 func buildTraces(cluster bool, items []*item, variant string, tag string, writerZone *time.Location) (*tables, error) {
 	t := newTables(cluster)
 	kvSeen := map[string]bool{}
+	items = byRole(items)
 	for _, it := range items {
 		if !keep(it, variant) {
 			continue
@@ -349,6 +360,7 @@ func buildProfiles(cluster bool, items []*item, variant string, tag string) (*ta
 	}
 	seen := map[skey]bool{}
 	keySeen := map[string]bool{}
+	items = byRole(items)
 	for _, it := range items {
 		if !keep(it, variant) {
 			continue
